@@ -120,11 +120,17 @@ def load_obligations() -> Dict[str, List[str]]:
     return json.loads((LEAN / "obligations.json").read_text())
 
 
+def prop_modules(prop: str) -> List[str]:
+    """the Lean modules that hold the obligations of `prop` (default: Smpl.Props.<prop>)."""
+    f = LEAN / "prop_modules.json"
+    table = json.loads(f.read_text()) if f.exists() else {}
+    return table.get(prop, [f"Smpl.Props.{prop}"])
+
+
 def audit(prop: str) -> Dict[str, Any]:
     """`#print axioms` for every theorem named in obligations.json for `prop`."""
     names = load_obligations().get(prop, [])
-    mod = f"Smpl.Props.{prop}"
-    src = [f"import {mod}"]
+    src = [f"import {m}" for m in prop_modules(prop)]
     for n in names:
         src.append(f"#print axioms {n}")
     audit_dir = LEAN / "Smpl" / "Audit"
